@@ -155,6 +155,19 @@ theorem each_tick_uses_a_retry (b0 : Book) (hq : b0.parked = []) (ops : List DOp
     pot ((drun b0 ops).retryParked).1.parked < pot (drun b0 ops).parked :=
   retry_uses_potential _ (drun_bufInv b0 ops (by rw [hq]; exact bufInv_nil)) hne
 
+/-- Copies of one vertex in the buffer do not share a retry budget: whether a retried entry is parked again
+depends on its own counter and on the room in the buffer, not on how often other entries - copies of the same
+vertex included - were retried. -/
+theorem retry_budget_is_per_entry (b b' : Book) (v : Vertex) (rep : Nat) (hlen : b'.parked.length = b.parked.length) :
+    (b.park v rep).isSome = (b'.park v rep).isSome := by
+  rw [park_spec, park_spec, hlen]
+  split <;> rfl
+
+/-- an entry whose counter is within the bound is parked again whenever there is room -/
+theorem within_budget_is_parked_again (b : Book) (v : Vertex) (rep : Nat) (hr : rep ≤ 25) (hl : b.parked.length < 500) :
+    b.park v rep = some { b with parked := b.parked ++ [(v, rep + 1)] } := by
+  rw [park_spec, if_neg (by omega)]
+
 /-- Generated obligations: the bounds are the ones in today's source. -/
 theorem gen_bounds : Generated.accountant_maxArraySize = Book.maxArraySize ∧
     Generated.accountant_maxRepeats = Book.maxRepeats := by decide
